@@ -15,5 +15,13 @@ macro_rules! witness {
 
 pub mod symrng;
 
+pub mod probes;
+
 #[cfg(feature = "c04")]
 pub mod c04_stack;
+#[cfg(feature = "c10")]
+pub mod c10_xo;
+#[cfg(feature = "c14")]
+pub mod c14_compose;
+#[cfg(feature = "c15")]
+pub mod c15_order;
